@@ -57,6 +57,16 @@ type Input struct {
 	F    Filter   `json:"f"`    // get_events filters
 	O    Opts     `json:"o"`
 	Join Join     `json:"join"`
+	Hm   Mutant   `json:"hm"` // hostile step (C04)
+}
+
+// Mutant describes one hostile message (spec/Hostile.tla).
+type Mutant struct {
+	T     string `json:"t"`     // message template / type
+	Pos   string `json:"pos"`   // mutated field or option key
+	Kind  string `json:"kind"`  // value kind put there
+	Phase string `json:"phase"` // joined | prehello | aftergoodbye | midcall
+	Drop  bool   `json:"drop"`  // abrupt disconnect right after
 }
 
 // Filter carries the wamp.subscription.get_events filters (0 / empty = absent;
@@ -169,6 +179,9 @@ type Bind struct {
 	Inv    int    `json:"inv"`
 	Callee string `json:"callee"`
 	Hp     []int  `json:"hp"` // publication ids of a get_events answer
+	// Closed lists the tainted sessions whose transport the router closed
+	// during a hostile step (their messages are not logged).
+	Closed []string `json:"closed"`
 }
 
 // Event is one line of the recorded trace.
